@@ -377,7 +377,7 @@ def _gen_meta(rng):
     n = int(rng.integers(3, 25))
     for i in range(n):
         key = ("~" if rng.random() < 0.15 else "") + "k" + "".join(rng.choice(list("abcXYZ_09"), int(rng.integers(1, 8))))
-        kind = rng.choice(["str", "int", "float", "ilist", "eq", "bigint", "small", "dots"])
+        kind = rng.choice(["str", "int", "float", "ilist", "eq", "bigint", "small", "dots", "repr"])
         if kind == "str":
             val = "".join(rng.choice(list("abc /:;()[]-_xyz"), int(rng.integers(0, 12))))
         elif kind == "int":
@@ -386,6 +386,11 @@ def _gen_meta(rng):
             val = f"{rng.random() * 10 ** int(rng.integers(0, 6)):.{int(rng.integers(1, 7))}f}"
         elif kind == "ilist":
             val = ",".join(str(int(rng.integers(0, 10 ** int(rng.integers(1, 9))))) for _ in range(int(rng.integers(2, 6))))
+        elif kind == "repr":
+            # what another writer of the same dictionary produces: the shortest text that reads back as the same double (17 significant digits at most),
+            # e.g. a duration n / fs = 0.0010666666666666667
+            v = float(rng.integers(1, 10 ** 6)) / float(rng.choice([30000.0, 2500.0, 30000.37, 3.0, 7e5, 1e9]))
+            val = repr(v) if "e" not in repr(v) else f"{v:.20f}".rstrip("0")
         elif kind == "eq":
             val = "a=b=" + str(int(rng.integers(0, 100)))
         elif kind == "bigint":
@@ -415,7 +420,7 @@ def _roundtrip(text, d):
     return keys_ok, diffs, m1, m2
 
 
-@bounded(PROPERTY, "native_roundtrip_and_gains", bound="read->write->read over every shipped meta file + 300 (thorough 3000) grammar-generated files (strings, ints up to 1e17, floats with <=6 decimals, "
+@bounded(PROPERTY, "native_roundtrip_and_gains", bound="read->write->read over every shipped meta file + 300 (thorough 3000) grammar-generated files (strings, ints up to 1e17, floats with <=6 decimals and shortest-repr doubles (durations n / fs with up to 17 significant digits), "
          "integer lists with items up to 1e9, tilde keys, '=' in values, scalars < 1e-4, digit/dot/comma strings with >= 2 dots); 60 generated gain tables with channel subsets",
          clause="textual round trip; gains on channel subsets with non uniform tables")
 def b_native(B):
